@@ -120,7 +120,42 @@ def generate(c: Contract) -> Generated:
                     ex.oblige(o.st, "safety", f"unexpected-raise:{o.exc}", z3.BoolVal(False), None,
                               f"path raises {o.exc}, which the contract does not allow")
         g.outcomes = kinds
+        # relational clauses: two executions from the same initial heap
+        if c.relational:
+            for lab, shared, req_src, ens_src in c.relational:
+                st2 = initial_state(ex, c, fs)
+                for n in shared:
+                    st2.env[n] = entry_env[n]
+                env2 = dict(st2.env)
+                for _l, src in c.requires:
+                    st2.pc.append(ex.spec_bool(st2, src, env2))
+                mark = len(ex.obls)
+                outs2 = ex.run_block(fs.fdef.body, st2)
+                del ex.obls[mark:]          # safety obligations of the second run duplicate the first
+                for o1 in outs:
+                    for o2 in outs2:
+                        if o1.kind not in ("normal", "return") or o2.kind not in ("normal", "return"):
+                            continue
+                        env = {}
+                        for n, v in entry_env.items():
+                            env[n if n in shared else n + "_1"] = v
+                        for n, v in env2.items():
+                            if n not in shared:
+                                env[n + "_2"] = v
+                        env["result_1"] = o1.val if o1.kind == "return" else T.NONE
+                        env["result_2"] = o2.val if o2.kind == "return" else T.NONE
+                        stj = o1.st.fork()
+                        stj.pc = o1.st.pc + o2.st.pc[:]
+                        stj.trace = o1.st.trace + ["|"] + o2.st.trace
+                        stj.pc.append(ex.spec_bool(entry, req_src, env))
+                        goal = ex.spec_bool(entry, ens_src, env)
+                        ex.oblige(stj, "relational", lab, goal, None, f"{req_src}  ==>  {ens_src}")
         g.obls = pre_obls + ex.obls
+        from . import calendar as _cal
+        cal_ax = _cal.axioms(ex)
+        if cal_ax:
+            for o in g.obls:
+                o.hyps = o.hyps + cal_ax
         if ex.fresh_objs:
             for o in g.obls:
                 o.hyps = o.hyps + alloc_axioms(o.hyps + [o.goal], ex.known_refs)
